@@ -48,7 +48,7 @@ def run(tier):
     n = common.NCPU
     span = 2**32 // n
     env['ASAN_OPTIONS'] = env['ASAN_OPTIONS'] + ':halt_on_error=0'      # every site is reported, the sweep goes on
-    jobs = [['instants', str(-2**31 + i * span), str(-2**31 + (i + 1) * span if i < n - 1 else 2**31), str(stride)] for i in range(n)] + [['components'], ['anyarg']]
+    jobs = [['instants', str(-2**31 + i * span), str(-2**31 + (i + 1) * span if i < n - 1 else 2**31), str(stride)] for i in range(n)] + [['components'], ['anyarg', 'valid'], ['anyarg', 'invalid']]
 
     def vrun(args):
         rc, out_, err, _ = common.run_cmd([vs] + args, env=env, timeout=7000)
@@ -64,6 +64,8 @@ def run(tier):
         for f in recs[:-1]:
             chk.violation('semantic:%s' % f['fail'], 'value-type operation: %s (a=%s b=%s c=%s)' % (f['fail'], f['a'], f['b'], f['c']), f)
         for key, msg, where in ubsan_sites(err):
+            if args == ['anyarg', 'valid'] and 'signed integer overflow' not in key:
+                key = 'valid-components:' + key        # the input class is part of a finding's identity
             sites.setdefault(key, (msg, where, args))
     for key, (msg, where, args) in sorted(sites.items()):
         chk.violation('ubsan:' + key, 'undefined behaviour at %s: %s (first seen in sweep %s)' % (where, msg, args), {'site': where, 'message': msg, 'sweep': args})
